@@ -26,8 +26,9 @@ Spec == Init /\ [][Next]_<< ty, st, depth >>
 
 Inv_StateOK == StateOK(st)
 \* the property's clauses hold for every operation that can be applied to a reachable state
-Inv_Clauses == \A op \in Alphabet : Enabled(ty, st, op) => PropertyClauses(ty, st, op)
+\* (states at the last level have no successors: every history of length <= Depth ends in an operation checked here)
+Inv_Clauses == depth < Depth => \A op \in Alphabet : Enabled(ty, st, op) => PropertyClauses(ty, st, op)
 \* every operation of the alphabet is applicable to every reachable state (so the histories of
 \* length <= MaxDepth are exactly the words over the alphabet), except integer division by zero
-Inv_Total == \A op \in Alphabet : (HasOp(ty, op.k) /\ ~(ty = "VI" /\ op.k = "VDiv")) => Enabled(ty, st, op)
+Inv_Total == depth < Depth => \A op \in Alphabet : (HasOp(ty, op.k) /\ ~(ty = "VI" /\ op.k = "VDiv")) => Enabled(ty, st, op)
 =============================================================================
